@@ -1118,7 +1118,9 @@ pub fn generate(prop: &str, rng: &mut Rng, plan: &mut Plan, index: u64) {
                 plan.parent.env[0].1 = "/nowhere:/work/locked:/bin".into();
             }
             let point = index % 64;
-            let errnos = [libc::EMFILE, libc::ENFILE, libc::EAGAIN, libc::ENOMEM, libc::EACCES, libc::EPERM, libc::EIO, libc::ENOENT, libc::ELOOP, libc::ENAMETOOLONG, libc::ETXTBSY, libc::EINVAL];
+            // "any errno": the whole classic range plus a few high ones
+            let mut errnos: Vec<i32> = (1..=40).collect();
+            errnos.extend_from_slice(&[libc::ELOOP, libc::ENAMETOOLONG, libc::EOVERFLOW, libc::EDQUOT, libc::ENOTSUP, 133, 255, 256, 65535, 0x7fff_ffff]);
             let e = errnos[(index / 64 % errnos.len() as u64) as usize];
             let f = &mut plan.knobs.faults;
             plan.knobs.batch = if point == 0 { "fault_free".into() } else { "faulty".into() };
